@@ -405,7 +405,10 @@ def parse_blocks(blk_text):
     else:
         raise TranslateError("From<Scanner> for blocks::Scanner changed: " + fb[:300])
     nb = re.sub(r"\s+", "", strip_comments(fn_body(impl, "new", "blocks::Scanner::new")))
-    if nb != "Scanner{_rules:rules,wasm_store:create_wasm_store_and_ctx(rules),needs_reset:true,snippets:BTreeMap::new(),}":
+    new_lit = "Scanner{_rules:rules,wasm_store:create_wasm_store_and_ctx(rules),needs_reset:true,snippets:BTreeMap::new(),}"
+    # a new block scanner is a new scan context, optionally with the module structures of the compiler replaced
+    # by empty ones (what From<Scanner> does too: in the model a block scanner is `fresh` + into_blocks)
+    if nb not in (new_lit, "letmutscanner=" + new_lit + ";scanner.scan_context_mut().clear_module_structs();scanner"):
         raise TranslateError("blocks::Scanner::new changed: " + nb[:200])
     return scan_s + tail, fin_s, into_s
 
@@ -565,6 +568,35 @@ def parse_thread_locals():
     return res
 
 
+STD_CONTAINERS = re.compile(r"^(IndexMap|FxHashMap|FxHashSet|Vec|HashMap|BTreeMap)<")
+
+
+def parse_pattern_matches_clear():
+    """PatternMatches::clear(): its branches.  Every branch must be one of the understood shapes:
+    all lists dropped with their keys, every list cleared in place, or (recognised so that the model can
+    follow it) some lists kept as they are."""
+    text = src("lib/src/scanner/matches.rs")
+    impl = impl_block(text, r"impl PatternMatches\s*\{", "impl PatternMatches")
+    b = re.sub(r"\s+", "", strip_comments(fn_body(impl, "clear", "PatternMatches::clear")))
+    m = re.fullmatch(r"ifself\.capacity>([0-9_]+)\{(.*)\}else\{(.*)\}", b)
+    if not m:
+        raise TranslateError("PatternMatches::clear: expected `if self.capacity > N {..} else {..}`: " + b[:200])
+    def branch(t):
+        if t == "self.matches.clear();self.capacity=0;":
+            return "PMDropAll"
+        if t == "formatchesinself.matches.values_mut(){matches.clear();}":
+            return "PMClearEach"
+        if "self.matches.retain(" in t and "matches.clear()" not in t:
+            return "PMKeepSome"     # some lists survive with their content
+        raise TranslateError("PatternMatches::clear: branch not understood: " + t[:200])
+    # every other use of the capacity counter must keep it in step with the lists (add())
+    add = re.sub(r"\s+", "", strip_comments(fn_body(impl, "add", "PatternMatches::add")))
+    for need in ("self.capacity-=matches.capacity();", "self.capacity+=matches.capacity();"):
+        if need not in add:
+            raise TranslateError("PatternMatches::add no longer maintains the total capacity (`%s`)" % need)
+    return int(m.group(1).replace("_", "")), branch(m.group(2)), branch(m.group(3))
+
+
 def parse_match_list_add():
     """MatchList::add: what the two same-start arms do with the end and the base of the listed match"""
     text = src("lib/src/scanner/matches.rs")
@@ -624,6 +656,15 @@ def main():
         raise TranslateError("Scanner::new changed: " + sn[:200])
     init.update({"scn_rules": 'IOther "rules"', "scn_wasm_store": 'IOther "store"', "scn_use_mmap": "ITrue", "scn_max_scan_size": "INone"})
     reset = parse_reset(ctx_text)
+    ftype = {c: ty for c, _, _, ty, _ in fields}
+    for st in re.findall(r"SClear ([a-z_]+)", " ".join(reset) + " " + " ".join(parse_scan_impl(scn_text)) + " " + " ".join(parse_blocks(blk_text)[0])):
+        ty = ftype.get(st, "")
+        if STD_CONTAINERS.match(ty):
+            continue                      # std / indexmap / hashbrown clear(): empties the container unconditionally
+        if ty == "PatternMatches":
+            continue                      # translated branch by branch below
+        raise TranslateError(f"`{st}.clear()`: clear() of type `{ty}` is not a std container and has not been translated")
+    pm_threshold, pm_over, pm_under = parse_pattern_matches_clear()
     scan_impl = parse_scan_impl(scn_text)
     blk_scan, blk_fin, into_s = parse_blocks(blk_text)
     init.update({"blk_rules": 'IOther "rules"', "blk_wasm_store": 'IOther "store"', "blk_needs_reset": "ITrue", "blk_snippets": "IEmpty"})
@@ -696,6 +737,14 @@ Definition host_search_forces_epoch_deadline_zero : bool := {str(tmo['forces']).
 Definition eval_maps_state_timeout_to_error : bool := {str(tmo['maps']).lower()}.
 Definition eval_passes_wasm_timeout_error : bool := {str(tmo['err_passthrough']).lower()}.
 Definition eval_drains_matching_rules_before_result : bool := {str(tmo['drains']).lower()}.
+
+(* PatternMatches::clear(): `if self.capacity > threshold {{ over }} else {{ under }}` *)
+Inductive pm_branch := PMDropAll     (* self.matches.clear(); self.capacity = 0 *)
+                     | PMClearEach   (* for matches in self.matches.values_mut() {{ matches.clear() }} *)
+                     | PMKeepSome.   (* some lists are kept with their content *)
+Definition pm_clear_threshold : N := {pm_threshold}%N.
+Definition pm_clear_over : pm_branch := {pm_over}.
+Definition pm_clear_under : pm_branch := {pm_under}.
 
 (* MatchList::add, the two arms for a match whose start is already listed (replace_if_longer = true):
    the `same start as the last match` arm takes the new end; the binary-search arm takes it when longer.
